@@ -403,7 +403,7 @@ def oracle_c03(tr):
         # FIN needs a shutdown() request (or the destructor's close, which the driver only does after `end`)
         # (forceClose()/forceCloseWithDelay() also move the connection to kDisconnecting, so a backlog that drains
         # before the forced close takes effect ends with a half-close too: observed, not forbidden by the property)
-        if not any(op.split()[0] in ("SHUT", "XSHUT", "FC", "FCD", "DFIRE") for op in ops[:first_fin + 1]):
+        if not any(op.split()[0] in ("SHUT", "XSHUT", "FC", "FCD", "DFIRE", "XRC") for op in ops[:first_fin + 1]):
             res.append((first_fin, None, "end-of-stream although neither shutdown() nor a forced close was requested"))
         # nothing is written after the FIN
         for j in range(first_fin + 1, len(tr.obs)):
@@ -484,8 +484,11 @@ SIZES = [0, 1, 2, 3, 5, 8, 13, 64, 1023, 1024, 1025, 4096]
 BIG = [65535, 65536, 65537, 200000, 1 << 20]
 
 
-def gen_case(rng, cid, profile="mixed", maxops=24):
-    """profile: 'stream' (C01), 'marks' (C13), 'close' (C03), 'mixed'."""
+def gen_case(rng, cid, profile="mixed", maxops=24, races=False):
+    """profile: 'stream' (C01), 'marks' (C13), 'close' (C03), 'mixed'.
+    races=True additionally issues shutdown()/forceClose() on foreign threads cut into load / store / hand-off
+    (XRC/XRS/XRE, thread ids >= 10): mostly with the three micro-steps adjacent or separated by ops that do not
+    close the connection, and at low frequency with a close by the loop thread between load and store (finding F-19)."""
     mark = rng.choice([0, 1, 2, 5, 8, 16, 64, 1024, 64 * 1024 * 1024] if profile != "marks" else [1, 2, 3, 5, 8, 13, 16, 32, 64, 100])
     wc = 1 if rng.random() < 0.8 else 0
     hw = 1 if rng.random() < 0.8 else 0
@@ -594,6 +597,28 @@ def gen_case(rng, cid, profile="mixed", maxops=24):
             ops.append(c)
         elif k == "ERRS":
             ops.append(rng.choice(["RERR", "ERR"]))
+    if races:
+        # benign placements anywhere in the case
+        nreq = rng.choice([0, 1, 1, 2])
+        tid = 10
+        for _ in range(nreq):
+            tid += 1
+            r = rng.choice(["shut", "fc"])
+            pos = rng.randint(1, len(ops)) if ops else 0
+            if rng.random() < 0.5:
+                ops[pos:pos] = ["XRC %d %s" % (tid, r), "XRS %d" % tid, "XRE %d" % tid]
+            else:
+                # load and store adjacent, the hand-off later
+                ops[pos:pos] = ["XRC %d %s" % (tid, r), "XRS %d" % tid]
+                pos2 = rng.randint(pos + 2, len(ops))
+                ops.insert(pos2, "XRE %d" % tid)
+        # the race proper, at the end of the case so that what follows the corrupted state is a fixed tail
+        if rng.random() < 0.04:
+            tid += 1
+            r = rng.choice(["shut", "fc"])
+            closer = rng.choice([["EOF"], ["HUP"], ["EOF", "RUN"], ["FC", "RUN"]])
+            ops += ["XRC %d %s" % (tid, r)] + closer + ["XRS %d" % tid, "XRE %d" % tid, "RUN", "RUN"]
+            return vlib.Case(cid, "%d %d %d" % (mark, wc, hw), ops, profile)
     for t, p in parked.items():
         if rng.random() < 0.7:
             ops.append("FSE %d %s" % (t, p))
@@ -640,7 +665,7 @@ def run_both(model, impl, cases):
 
 
 def run_property(chk, prop, oracle, profiles, nrand_quick, nrand_thorough, replay=None, extra_cases=(), nontrivial=None,
-                 rule="", trusted=(), assumptions=()):
+                 rule="", trusted=(), assumptions=(), races=False):
     """Common check body for the single-connection properties."""
     pr = chk.prove()
     model, impl = build()
@@ -652,7 +677,7 @@ def run_property(chk, prop, oracle, profiles, nrand_quick, nrand_thorough, repla
         n = nrand_quick if chk.tier == "quick" else nrand_thorough
         for i in range(n):
             prof = profiles[i % len(profiles)]
-            cases.append(gen_case(chk.rng, "g%d" % i, prof, maxops=24 if chk.tier == "quick" else 40))
+            cases.append(gen_case(chk.rng, "g%d" % i, prof, maxops=24 if chk.tier == "quick" else 40, races=races))
     io, icr, mo, mcr = run_both(model, impl, cases)
     corr_bad, orc_bad = [], []
     sigs = set()
@@ -669,6 +694,11 @@ def run_property(chk, prop, oracle, profiles, nrand_quick, nrand_thorough, repla
             msgs = [(len(li) - 1, None, "implementation crashed (rc=%s): %s" % (rc, se.strip().split("\n")[0][:300]))]
             # a crash is matched against known findings by the op pattern that precedes it
             key = crash_signature(c, len(li) - 1, se)
+            if key is None:
+                obs_sofar = [parse_line(l) for l in li[1:]]
+                j = race_manifested(c, obs_sofar)
+                if j is not None and j <= len(li) - 1:
+                    key = F19_KEY
             msgs = [(len(li) - 1, key, msgs[0][2])]
         else:
             if li is None:
@@ -676,6 +706,10 @@ def run_property(chk, prop, oracle, profiles, nrand_quick, nrand_thorough, repla
                 continue
             tr = Trace(c, li)
             msgs = oracle(tr)
+            # F-19: whatever the oracle reports from the racy store on is the consequence of the corrupted state_
+            j = race_manifested(c, tr.obs) if not tr.bad else None
+            if j is not None:
+                msgs = [(i, (F19_KEY if (key is None and i >= j) else key), msg) for (i, key, msg) in msgs]
             if nontrivial:
                 sg = nontrivial(c, tr)
                 if sg:
@@ -697,8 +731,11 @@ def run_property(chk, prop, oracle, profiles, nrand_quick, nrand_thorough, repla
     chk.cov["traces_validated_against_impl"] = len(cases) - len(corr_bad)
     chk.add_obligation("correspondence: extracted Conn_Model.step == real TcpConnection (scripted kernel, raw peer) on every case, every observer after every op", not corr_bad)
     chk.add_obligation("oracle: %s evaluated on the implementation's own trace" % prop, not orc_bad)
-    chk.trusted("extraction: ExtrOcamlBasic only; extract/util.ml + extract/Conn_driver.ml",
-                "harness/Conn_driver.cc: op-by-op driver, '#define private public', link-time interposition of write/readv/gettimeofday/pthread_mutex_lock, AF_UNIX socketpair as the TCP stream",
+    chk.trusted("extraction: ExtrOcamlBasic only (Conn_Model.step/init/run_batch/uses_kernel/xstep/xinit); extract/util.ml + extract/Conn_driver.ml",
+                "translator lib/cxxast.py + lib/gen_Conn.py: guards, argument expressions and structure facts of TcpConnection.cc from clang's JSON AST (Gen_Conn.v), "
+                "linked to the model by Conn_GenTie*.v",
+                "harness/Conn_driver.cc: op-by-op driver, '#define private public', link-time interposition of write/readv/shutdown/gettimeofday/pthread_mutex_lock, "
+                "AF_UNIX socketpair as the TCP stream; TcpConnection.cc compiled into the driver with a schedule point in front of setState (only armed foreign threads stall)",
                 *trusted)
 
     def shrink(c, pred):
@@ -738,6 +775,30 @@ def run_property(chk, prop, oracle, profiles, nrand_quick, nrand_thorough, repla
     return chk.finish(level="proof", assumptions=list(assumptions) + [
         "an AF_UNIX stream socketpair stands in for the TCP stream; the kernel's write results are scripted at the sockets::write boundary (environment contract, DESIGN 3.4)",
         "loop-thread code is atomic w.r.t. other loop-thread code; foreign calls interleave only at their state test and their enqueue (DESIGN 3.2)"])
+
+
+F19_KEY = "foreign-close-request-races-close"
+
+
+def race_manifested(case, obs):
+    """F-19 signature (never the property id): the index of the first XRS <t> whose request's state test had passed
+    (XRC <t> issued while the connection was up / connected) and which executes when the loop thread has meanwhile
+    brought the connection down (state kDisconnected right before the store): from that op on state_ is corrupted.
+    None if no such op."""
+    passed = {}
+    for i, op in enumerate(case.ops):
+        if i >= len(obs) or obs[i] is None:
+            break
+        t = op.split()
+        pre_st = obs[i - 1].st if i else CONNECTING
+        if obs[i].status != "ok":
+            continue
+        if t[0] == "XRC":
+            passed[t[1]] = (pre_st == CONNECTED) if t[2] == "shut" else (pre_st in (CONNECTED, DISCONNECTING))
+        elif t[0] == "XRS":
+            if passed.pop(t[1], False) and pre_st == DISCONNECTED:
+                return i
+    return None
 
 
 def crash_signature(case, idx, stderr):
